@@ -45,7 +45,7 @@ package network
 //@   ensures [uses-retry] first(libp2pDataTransferNetwork.openStream, $2 == p) && calls(libp2pDataTransferNetwork.openStream) == 1
 
 //@ func (*network.libp2pDataTransferNetwork).handleNewStream {C15,C05}
-//@   acquires {C20} channelmonitor.Monitor.lk, channelmonitor.monitoredChannel.shutdownLk, graphsync.Transport.dtChannelsLk, graphsync.dtChannel.lk, graphsync.dtChannel.optionsLk, registry.Registry.registryLk, tracing.SpansIndex.spansLk, transportoptions.TransportOptions.optionsLk
+//@   acquires {C20} channelmonitor.Monitor.lk, channelmonitor.monitoredChannel.shutdownLk, channels.progressCache.lk, graphsync.Transport.dtChannelsLk, graphsync.dtChannel.lk, graphsync.dtChannel.optionsLk, graphsync.requestIDToChannelIDMap.lk, registry.Registry.registryLk, tracing.SpansIndex.spansLk, transportoptions.TransportOptions.optionsLk
 //@   requires s != nil
 //@   after Stream.Conn [libp2p] $r0 != nil
 //@   loop 0 invariant [peer-fixed] true
@@ -63,9 +63,9 @@ package network
 
 // lock effects of this package's interfaces (C20)
 //@ extern func (network.Receiver).ReceiveRequest
-//@   acquires {C20} nothing
+//@   acquires {C20} channels.progressCache.lk, graphsync.Transport.dtChannelsLk, graphsync.dtChannel.lk, graphsync.dtChannel.optionsLk, graphsync.requestIDToChannelIDMap.lk, registry.Registry.registryLk, tracing.SpansIndex.spansLk, transportoptions.TransportOptions.optionsLk
 //@ extern func (network.Receiver).ReceiveResponse
-//@   acquires {C20} nothing
+//@   acquires {C20} graphsync.Transport.dtChannelsLk, graphsync.dtChannel.lk, tracing.SpansIndex.spansLk
 //@ extern func (network.Receiver).ReceiveRestartExistingChannelRequest
 //@   acquires {C20} channelmonitor.Monitor.lk, channelmonitor.monitoredChannel.shutdownLk, graphsync.Transport.dtChannelsLk, graphsync.dtChannel.lk, graphsync.dtChannel.optionsLk, registry.Registry.registryLk, tracing.SpansIndex.spansLk, transportoptions.TransportOptions.optionsLk
 //@ extern func (network.Receiver).ReceiveError
